@@ -3,20 +3,20 @@
 and write seeded/MATRIX.md from the confirmation and detection logs."""
 import json, os, re, shutil, sys
 SRC, DST = "/tmp/seedout", "/verif/seeded"
-SOURCES = [("/tmp/seedout", ""), ("/tmp/seedout2", "r2-"), ("/tmp/seedout3", "r3-"), ("/tmp/seedout4", "r4-"), ("/tmp/seedout5", "r5-"), ("/tmp/seedout6", "r6-"), ("/tmp/seedout7", "r7-")]
+SOURCES = [("/tmp/seedout", ""), ("/tmp/seedout2", "r2-"), ("/tmp/seedout3", "r3-"), ("/tmp/seedout4", "r4-"), ("/tmp/seedout5", "r5-"), ("/tmp/seedout6", "r6-"), ("/tmp/seedout7", "r7-"), ("/tmp/seedout8", "r8-")]
 confirm = {}
 for l in open("/tmp/confirm.log"):
     f = l.split()
     if f:
         confirm[f[0]] = " ".join(f[1:])
-for extra in ("/tmp/confirm_extra.log", "/tmp/confirm2.log", "/tmp/confirm3.log", "/tmp/confirm4.log", "/tmp/confirm5.log", "/tmp/confirm6.log", "/tmp/confirm7.log"):
+for extra in ("/tmp/confirm_extra.log", "/tmp/confirm2.log", "/tmp/confirm3.log", "/tmp/confirm4.log", "/tmp/confirm5.log", "/tmp/confirm6.log", "/tmp/confirm7.log", "/tmp/confirm8.log"):
     if os.path.exists(extra):
         for l in open(extra):
             f = l.split()
             if f:
                 confirm[f[0]] = " ".join(f[1:])
 matrix = {}
-for ml in ("/tmp/matrix.log", "/tmp/matrix4.log", "/tmp/matrix6.log", "/tmp/matrix9.log", "/tmp/matrix11.log", "/tmp/matrix13.log", "/tmp/matrix15.log"):
+for ml in ("/tmp/matrix.log", "/tmp/matrix4.log", "/tmp/matrix6.log", "/tmp/matrix9.log", "/tmp/matrix11.log", "/tmp/matrix13.log", "/tmp/matrix15.log", "/tmp/matrix16.log"):
     if os.path.exists(ml):
         for l in open(ml):
             f = l.split()
